@@ -22,6 +22,7 @@ mod c18;
 mod c19;
 mod c20;
 mod net;
+mod tl;
 
 fn main() {
     let args: Vec<String> = std::env::args().collect();
@@ -75,6 +76,7 @@ fn run(module: &str, command: &str, kv: &common::Args) -> i32 {
         ("c16", "drive") => c16::drive(kv),
         ("c17", "drive") => c17::drive(kv),
         ("c20", "drive") => c20::drive(kv),
+        ("tl", "drive") => tl::drive(kv),
         (m, c) => {
             eprintln!("unknown module/command {m} {c}");
             2
